@@ -67,14 +67,14 @@ func (c07) Budget(tier string) runner.Budget {
 func (c07) Describe() runner.Description {
 	return runner.Description{
 		Rule: "each plan: 2..6 honestly signed transactions (native with harness keys; EIP-155 wrapped Ethereum transactions for this chain id) and 10..60 deliveries, each either intact or tampered by exactly one mutation: substitution of one authenticated field (source, target, type, data, extra data, nonce, chain id, time, declared hash - with or without the tamperer recomputing the hash), signature r/s/v bit flips, signature spliced from another honest transaction, one bit flipped anywhere in the marshalled bytes (when it still parses); for wrapped transactions additionally outer-field substitutions, bit flips in the RLP payload, and inner re-encodings (to/nonce/value/gas/data/chain id changed under the original signature). Ingress paths: peer-to-peer TransactionGotMsg bytes, client write topic, queued write handler (both branches). Exact oracle at quiescence: every pending transaction equals an honestly signed one on all authenticated fields; every honest transaction delivered intact is pending. distinct_nontrivial = distinct (ingress path, mutation kind, tx form, rehash) tuples exercised.",
-		Assumptions: []string{"generated mutations never include the ECDSA (r, n-s, v^1) twin", "unauthenticated fields (request id, socket id, sub-transactions) are not mutated"},
+		Assumptions: []string{"unauthenticated fields (request id, socket id, sub-transactions) are not mutated"},
 		Real:        []string{"service.VerifyTransaction (hash, chain id, signature, EIP-155 path, compareTx)", "common secp256k1 sign/recover", "eth_tx (RLP, EIP-155 signer, ConvertTx)", "network receive path (envelope + transaction codecs)", "core game executor ingress handlers", "notify bus fan-out under the simulated scheduler"},
 		Stub:        []string{"websocket gate (bytes are injected at handleMessage)", "ConsensusHelper"},
 		FaultKinds:  []string{"tamper_field", "tamper_bitflip", "tamper_signature", "tamper_inner_rlp", "replay_intact"},
 	}
 }
 
-var c07NativeMuts = []string{"src", "tgt", "type", "data", "extra", "nonce", "chain", "time", "hash", "sig-r", "sig-s", "sig-v", "splice", "bitflip"}
+var c07NativeMuts = []string{"src", "tgt", "type", "data", "extra", "nonce", "chain", "time", "hash", "sig-r", "sig-s", "sig-v", "sig-twin", "splice", "bitflip"}
 var c07EthMuts = []string{"src", "tgt", "type", "data", "nonce", "chain", "hash", "extra-bit", "in-to", "in-nonce", "in-value", "in-gas", "in-data", "in-chain", "bitflip"}
 
 func (c07) Gen(seed uint64, tier string) json.RawMessage {
@@ -100,6 +100,16 @@ func (c07) Gen(seed uint64, tier string) json.RawMessage {
 	return b
 }
 
+var secp256k1N, _ = new(big.Int).SetString("fffffffffffffffffffffffffffffffebaaedce6af48a03bbfd25e8cd0364141", 16)
+
+// the recovery id is carried either as 0..3 or as 27..30
+func flipRecID(v byte) byte {
+	if v > 26 {
+		return 27 + ((v - 27) ^ 1)
+	}
+	return v ^ 1
+}
+
 type c07Honest struct {
 	tx  *types.Transaction
 	eth *eth_tx.Transaction
@@ -110,6 +120,11 @@ func c07AuthKey(t *types.Transaction) string {
 	sig := ""
 	if t.Sign != nil {
 		sig = hex.EncodeToString(t.Sign.Bytes())
+	}
+	if t.Type == types.TransactionTypeETHTX {
+		// a wrapped transaction is authenticated by its signed RLP payload: sender, target, nonce,
+		// value/gas/data (the Data json), hash, chain id. Time and the native Sign field are not part of it.
+		return strings.Join([]string{t.Source, t.Target, fmt.Sprint(t.Type), t.Data, t.ExtraData, fmt.Sprint(t.Nonce), t.ChainId, "", t.Hash.Hex(), ""}, "|")
 	}
 	return strings.Join([]string{t.Source, t.Target, fmt.Sprint(t.Type), t.Data, t.ExtraData, fmt.Sprint(t.Nonce), t.ChainId, t.Time, t.Hash.Hex(), sig}, "|")
 }
@@ -193,9 +208,37 @@ func c07Mutate(h c07Honest, all []c07Honest, d c07Delivery, chainID *big.Int) *t
 	case "sig-v":
 		if t.Sign != nil {
 			b := t.Sign.Bytes()
-			b[64] ^= 1
+			b[64] = flipRecID(b[64])
 			t.Sign = common.BytesToSign(b)
 		}
+	case "sig-v-enc":
+		// same recovery id in the other accepted encoding (27..30 <-> 0..3): the signature bytes change
+		if t.Sign == nil {
+			return nil
+		}
+		b := t.Sign.Bytes()
+		if b[64] > 26 {
+			b[64] -= 27
+		} else {
+			b[64] += 27
+		}
+		t.Sign = common.BytesToSign(b)
+	case "sig-twin":
+		// the algebraic twin (r, n-s, recovery id flipped): another valid ECDSA signature of the same
+		// key over the same hash; the unmodified verifier refuses it (high s)
+		if t.Sign == nil {
+			return nil
+		}
+		b := t.Sign.Bytes()
+		sv := new(big.Int).SetBytes(b[32:64])
+		sv.Sub(secp256k1N, sv)
+		sb := sv.Bytes()
+		for i := 32; i < 64; i++ {
+			b[i] = 0
+		}
+		copy(b[64-len(sb):64], sb)
+		b[64] = flipRecID(b[64])
+		t.Sign = common.BytesToSign(b)
 	case "splice":
 		for _, o := range all {
 			if o.tx.Hash != h.tx.Hash && o.tx.Sign != nil {
@@ -329,6 +372,7 @@ func (c07) Exec(raw json.RawMessage, st *simrt.Stats, log *simrt.Log) *simrt.Vio
 	intact := map[int]bool{}
 	tuples := map[string]bool{}
 
+	var directViol *simrt.Violation
 	deliverAll := func() {
 		for i, d := range p.Deliver {
 			h := honest[d.Tx%len(honest)]
@@ -357,6 +401,21 @@ func (c07) Exec(raw json.RawMessage, st *simrt.Stats, log *simrt.Log) *simrt.Vio
 			}
 			if len(tx.SubTransactions) == 0 {
 				tx.SubTransactions = []types.UserData{{}}
+			}
+			// the verification entry point itself, in the pool state of this moment
+			{
+				c := *tx
+				verr := n.Pool.VerifyTransaction(&c, height)
+				if d.Mut != "" && verr == nil && directViol == nil {
+					form := "native"
+					if h.eth != nil {
+						form = "eth"
+					}
+					directViol = viol(i, "tampered-tx-passes-verification", form+"-"+d.Mut, "VerifyTransaction accepted transaction %d after mutation %q (rehash=%v) at delivery %d", d.Tx%len(honest), d.Mut, d.Rehash, i)
+				}
+				if d.Mut == "" && verr != nil && directViol == nil {
+					directViol = viol(i, "honest-tx-rejected", "verify", "VerifyTransaction rejected honest transaction %d: %v", d.Tx%len(honest), verr)
+				}
 			}
 			form := "native"
 			if h.eth != nil {
@@ -390,6 +449,9 @@ func (c07) Exec(raw json.RawMessage, st *simrt.Stats, log *simrt.Log) *simrt.Vio
 		return viol(-1, "deadlock", "ingress", "deadlock under the simulated schedule")
 	}
 	st.Evaluations++
+	if directViol != nil {
+		return directViol
+	}
 	// exact oracle at quiescence
 	pending := n.Pool.GetReceived()
 	sort.Slice(pending, func(i, j int) bool { return pending[i].Hash.Hex() < pending[j].Hash.Hex() })
